@@ -271,7 +271,14 @@ def report(pid, tier, seed, mod, m, wall, nshards, replay):
         "wall_s": round(wall, 2),
         "violations": int(sum(v["count"] for _, v in unknown)),
     }
-    if not replay:
+    override = os.path.realpath(core.REPO) != "/repo"
+    if override:
+        # break-it experiments against a scratch copy never touch the committed evidence / replays
+        os.makedirs(os.path.join(VERIF, ".work", "override", "replays"), exist_ok=True)
+        evp = os.path.join(VERIF, ".work", "override", pid + ".json")
+        with open(evp, "w") as f:
+            json.dump(ev, f, indent=1)
+    elif not replay:
         evp = os.path.join(VERIF, "evidence", pid + ".json")
         with open(evp + ".tmp", "w") as f:
             json.dump(ev, f, indent=1)
@@ -283,7 +290,8 @@ def report(pid, tier, seed, mod, m, wall, nshards, replay):
         os.makedirs(os.path.join(VERIF, "replays"), exist_ok=True)
         for key, v in unknown:
             safe = "".join(c if c.isalnum() or c in "-_." else "_" for c in key)[:100]
-            rp = os.path.join(VERIF, "replays", "%s-%s.json" % (pid, safe))
+            rp = os.path.join(VERIF, ".work", "override", "replays") if override else os.path.join(VERIF, "replays")
+            rp = os.path.join(rp, "%s-%s.json" % (pid, safe))
             with open(rp, "w") as f:
                 json.dump({"property": pid, "key": key, "sub": v["sub"], "site": v["site"],
                            "count": v["count"], "witnesses": v["witnesses"], "tier": tier,
